@@ -17,11 +17,11 @@ RULE = ('`python -m pyx12.scripts.x12norm` is run as a subprocess (one process p
         'Every sixth step the last 2-3 inputs are also normalised in ONE invocation (separate arguments in place, to stdout, or through a glob pattern in place); each result must equal the single-file run. non-trivial = distinct (document, option set) pairs; for the repair part those with >=1 perturbed counter.')
 ASSUMPTIONS = ['input files are ASCII (the tool opens files as ASCII by design); --output with several input files (each overwrites the last) is not judged',
                'a segment without any element is not generated (format() writes "SE*~" for "SE~")', 'the exit status and log lines on stderr are not judged']
-REQUIRED_COUNTERS = ['inputs:longer-than-one-read-buffer:inplace', 'inputs:longer-than-one-read-buffer:output', 'inputs:longer-than-one-read-buffer:stdout', 'invocations', 'mode:stdout', 'mode:output', 'mode:inplace', 'opt:eol', 'opt:fixcounting', 'idempotence-checked', 'repairs-checked', 'perturbed-counters', 'multi-file-invocations', 'multi-file:later-output-shorter', 'multi-file:inplace', 'multi-file:stdout', 'multi-file:inplace-glob']
+REQUIRED_COUNTERS = ['inputs:longer-than-one-read-buffer:inplace', 'inputs:longer-than-one-read-buffer:output', 'inputs:longer-than-one-read-buffer:stdout', 'invocations', 'mode:stdout', 'mode:output', 'mode:inplace', 'opt:eol', 'opt:fixcounting', 'idempotence-checked', 'repairs-checked', 'perturbed-counters', 'inputs:line-break-character-as-terminator', 'multi-file-invocations', 'multi-file:later-output-shorter', 'multi-file:inplace', 'multi-file:stdout', 'multi-file:inplace-glob']
 MIN_CASES = {'quick': 120, 'thorough': 3000}
 WATCHDOG_S = {'quick': 1200, 'thorough': 7200}
 
-TERMS = [('~', '*', ':'), ('!', '|', '>'), ('\x1c', '\x1d', '<'), ('$', '+', '\\')]
+TERMS = [('~', '*', ':'), ('!', '|', '>'), ('\x1c', '\x1d', '<'), ('$', '+', '\\'), ('\r', '*', ':'), ('\n', '|', '>')]      # a carriage return or line feed may be the terminator
 
 
 def run_norm(ctx, path, eol, fix, mode, outpath=None):
@@ -248,7 +248,9 @@ def run(ctx):
                 ctx.count('inputs:longer-than-one-read-buffer:' + mode)
             if fix and rng.random() < 0.8:
                 doc, nper = perturb(rng, doc)
-            brk = rng.choice(['', '\n', '\r\n', '\n\n'])
+            brk = rng.choice(['', '\n', '\r\n', '\n\n']) if terms[0] not in '\r\n' else ''
+            if terms[0] in '\r\n':
+                ctx.count('inputs:line-break-character-as-terminator')
             text = doc.text(terms[0], terms[1], terms[2], brk)
             meta = {'map': e['file'], 'terms': list(terms), 'line_break': brk, 'perturbed': nper, 'k': ['c20', ctx.shard, k]}
         judge(ctx, text, meta, eol, fix, mode, nper, sigs)
